@@ -55,9 +55,11 @@ Variable fl : A -> list kind.
 Variable x : A -> B.
 Variable toks : list token.
 Variable g : B * nat -> fres.
+(* what is assumed of an element (comment-free, or comments in leading position only) *)
+Variable okp : A -> Prop.
 
 Definition elem_ok (a : A) : Prop :=
-  forall off, forallb nice (fl a) = true -> At toks off (fl a) -> exists t, g (x a, off) = FOk t /\ Wv (fl a) t.
+  forall off, okp a -> At toks off (fl a) -> exists t, g (x a, off) = FOk t /\ Wv (fl a) t.
 
 Hypothesis fl_ends : forall a, ends_e (fl a).
 
@@ -66,9 +68,12 @@ Definition sepf (gsep : text) (acc p : text) : text := acc ++ (sh Comma ++ gsep)
 Lemma join_sepf gsep t ts : join (sh Comma ++ gsep) (t :: ts) = fold_left (sepf gsep) ts t.
 Proof. reflexivity. Qed.
 
+(* no comment in front of a comma, every element admissible *)
+Definition tail_okp (l : list (cs * A)) : Prop := Forall (fun ca : cs * A => fst ca = [] /\ okp (snd ca)) l.
+
 (* the elements are printed one by one; joined with "," and any non-empty gap they are woven *)
 Lemma tail_prints l : Forall (fun ca : cs * A => elem_ok (snd ca)) l -> forall o,
-  forallb nice (fl_tail fl l) = true -> At toks o (fl_tail fl l) ->
+  tail_okp l -> At toks o (fl_tail fl l) ->
   exists ts, (forall k, fmap g (x_tail fl x o l) k = k ts) /\ length ts = length l /\
              forall gsep ks0 t0, forallb gapc gsep = true -> gsep <> [] -> Wv ks0 t0 -> ends_e ks0 ->
                                  Wv (ks0 ++ fl_tail fl l) (fold_left (sepf gsep) ts t0).
@@ -76,9 +81,10 @@ Proof.
   induction 1 as [|[c a] r Ha _ IH]; intros o Hn H.
   - exists []. split; [reflexivity|]. split; [reflexivity|]. intros gsep ks0 t0 _ _ W0 _.
     cbn [fold_left fl_tail flat_map]. rewrite app_nil_r. exact W0.
-  - rewrite fl_tail_cons in *. nice_split. cbn [cm map app length] in *. cbn [snd] in Ha. at_split.
-    destruct (Ha (o + length (@nil text) + 1) ltac:(assumption) ltac:(at_solve)) as (t & Et & Wt).
-    destruct (IH (o + length (@nil text) + 1 + length (fl a)) ltac:(assumption) ltac:(at_solve)) as (ts & Ets & Lts & Wts).
+  - inversion Hn as [|? ? [Hc Hoa] Hn']; subst. cbn [fst snd] in Hc, Hoa, Ha. subst c.
+    rewrite fl_tail_cons in *. cbn [cm map app length] in *. at_split.
+    destruct (Ha (o + length (@nil text) + 1) Hoa ltac:(at_solve)) as (t & Et & Wt).
+    destruct (IH (o + length (@nil text) + 1 + length (fl a)) Hn' ltac:(at_solve)) as (ts & Ets & Lts & Wts).
     exists (t :: ts). split; [|split].
     + intros k. cbn [x_tail]. rewrite fmap_cons, Et. cbn [fbind]. apply Ets.
     + cbn [length]. rewrite Lts. reflexivity.
@@ -90,20 +96,28 @@ Proof.
 Qed.
 
 Lemma sep_prints a l : elem_ok a -> Forall (fun ca : cs * A => elem_ok (snd ca)) l -> forall o,
-  forallb nice (fl_sep fl (Some (a, l))) = true -> At toks o (fl_sep fl (Some (a, l))) ->
+  okp a -> tail_okp l -> At toks o (fl_sep fl (Some (a, l))) ->
   exists t ts, (forall k, fmap g (x_sep fl x o (Some (a, l))) k = k (t :: ts)) /\ length ts = length l /\
                forall gsep, forallb gapc gsep = true -> gsep <> [] ->
                             Wv (fl_sep fl (Some (a, l))) (join (sh Comma ++ gsep) (t :: ts)).
 Proof.
-  intros Ha Hl o Hn H. cbn [fl_sep] in *. nice_split. at_split.
-  destruct (Ha o ltac:(assumption) ltac:(at_solve)) as (t & Et & Wt).
-  destruct (tail_prints l Hl (o + length (fl a)) ltac:(assumption) ltac:(at_solve)) as (ts & Ets & Lts & Wts).
+  intros Ha Hl o Hoa Hn H. cbn [fl_sep] in *. at_split.
+  destruct (Ha o Hoa ltac:(at_solve)) as (t & Et & Wt).
+  destruct (tail_prints l Hl (o + length (fl a)) Hn ltac:(at_solve)) as (ts & Ets & Lts & Wts).
   exists t, ts. split; [|split].
   - intros k. cbn [x_sep]. rewrite fmap_cons, Et. cbn [fbind]. apply Ets.
   - exact Lts.
   - intros gsep Gg Gn. rewrite join_sepf. apply Wts; [exact Gg | exact Gn | exact Wt | apply fl_ends].
 Qed.
 End Sep.
+
+(* a comment-free tail: no comment in front of a comma, every element comment-free *)
+Lemma nice_tail {A} (fl : A -> list kind) l :
+  forallb nice (fl_tail fl l) = true -> tail_okp (fun a => forallb nice (fl a) = true) l.
+Proof.
+  induction l as [|[c a] r IH]; intros H; [constructor|]. rewrite fl_tail_cons in H. nice_split.
+  constructor; [split; [reflexivity | assumption] | apply IH; assumption].
+Qed.
 
 (* ================================================================================================
    2. The statement printers, written with [sh] and [gp]
@@ -226,39 +240,90 @@ Lemma fmt_stmts_cons s o r toks :
   (do a <- with_from o toks (fun t' => fmt_stmt f s t'); do b <- fmt_stmts f r toks; FOk (a ++ b)).
 Proof. reflexivity. Qed.
 
-(* the slice of the node's own range holds no comment: the helpers add nothing *)
-Lemma finish_all toks o e ks body :
-  At toks o ks -> forallb nice ks = true -> e = o + length ks ->
-  with_slice (mkinfo o e) toks (fun sl => FOk (add_all_comments body sl)) = FOk body.
+(* the slice of the node's own range: the comments of its leading slot, then no comment (add_all_comments) resp.
+   a token that is no comment (add_leading_comments): the helpers print exactly the leading comments *)
+Lemma finish_all toks o e ks0 c ks body :
+  At toks o ks0 -> ks0 = cm c ++ ks -> forallb nice ks = true -> e = o + length ks0 ->
+  with_slice (mkinfo o e) toks (fun sl => FOk (add_all_comments body sl)) = FOk (lead_text c ++ body).
 Proof.
-  intros H Hn He. destruct (with_slice_At toks o e ks (fun sl => FOk (add_all_comments body sl)) H He) as (sl & E & M).
-  rewrite E, no_all_comments; [reflexivity|]. rewrite M. exact Hn.
+  intros H -> Hn He. destruct (with_slice_At toks o e _ (fun sl => FOk (add_all_comments body sl)) H He) as (sl & E & M).
+  rewrite E, (lead_all sl c ks body M Hn). reflexivity.
 Qed.
 
-Lemma finish_leading toks o e ks body :
-  At toks o ks -> forallb nice ks = true -> e = o + length ks ->
-  with_slice (mkinfo o e) toks (fun sl => FOk (add_leading_comments body sl)) = FOk body.
+Lemma finish_leading toks o e ks0 c k ks body :
+  At toks o ks0 -> ks0 = cm c ++ k :: ks -> is_comment k = false -> e = o + length ks0 ->
+  with_slice (mkinfo o e) toks (fun sl => FOk (add_leading_comments body sl)) = FOk (lead_text c ++ body).
 Proof.
-  intros H Hn He. destruct (with_slice_At toks o e ks (fun sl => FOk (add_leading_comments body sl)) H He) as (sl & E & M).
-  rewrite E, no_leading_comments; [reflexivity|]. rewrite M. exact Hn.
+  intros H -> Hk He. destruct (with_slice_At toks o e _ (fun sl => FOk (add_leading_comments body sl)) H He) as (sl & E & M).
+  rewrite E, (lead_leading sl c k ks body M Hk). reflexivity.
 Qed.
 
 (* ================================================================================================
    3. Statements
    ================================================================================================ *)
+(* comments in leading position only: in front of the first token of a statement - but not of a block that is the
+   branch of an if / while (fmt_branch drops those, C10) - and nowhere else *)
+Fixpoint lo_stmt (s : astmt) : bool :=
+  match s with
+  | SEmp _ => true
+  | SAsg v c1 e c2 => forallb nice (var_code v ++ cm c1 ++ Assign :: fl_cmp e ++ cm c2 ++ [Semic])
+  | SCal _ fn c2 a c3 c4 => forallb nice (Ident fn :: cm c2 ++ LParen :: fl_sep fl_cmp a ++ cm c3 ++ RParen :: cm c4 ++ [Semic])
+  | SIfT _ c2 e c3 t =>
+      forallb nice (KIf :: cm c2 ++ LParen :: fl_cmp e ++ cm c3 ++ [RParen])
+      && match t with SBlk c1 b c2 => is_nil c1 && is_nil c2 && lo_stmts b | _ => lo_stmt t end
+  | SIfE _ c2 e c3 t c4 s' =>
+      forallb nice (KIf :: cm c2 ++ LParen :: fl_cmp e ++ cm c3 ++ [RParen])
+      && match t with SBlk c1 b c2 => is_nil c1 && is_nil c2 && lo_stmts b | _ => lo_stmt t end
+      && is_nil c4
+      && match s' with SBlk c1 b c2 => is_nil c1 && is_nil c2 && lo_stmts b | _ => lo_stmt s' end
+  | SWhl _ c2 e c3 t =>
+      forallb nice (KWhile :: cm c2 ++ LParen :: fl_cmp e ++ cm c3 ++ [RParen])
+      && match t with SBlk c1 b c2 => is_nil c1 && is_nil c2 && lo_stmts b | _ => lo_stmt t end
+  | SBlk _ b c2 => lo_stmts b && is_nil c2
+  end
+with lo_stmts (b : astmts) : bool :=
+  match b with SNil => true | SCons s r => lo_stmt s && lo_stmts r end.
+
+Definition lo_branch (t : astmt) : bool :=
+  match t with SBlk c1 b c2 => is_nil c1 && is_nil c2 && lo_stmts b | _ => lo_stmt t end.
+
+Lemma lo_ift c1 c2 e c3 t :
+  lo_stmt (SIfT c1 c2 e c3 t) = forallb nice (KIf :: cm c2 ++ LParen :: fl_cmp e ++ cm c3 ++ [RParen]) && lo_branch t.
+Proof. reflexivity. Qed.
+Lemma lo_ife c1 c2 e c3 t c4 s' :
+  lo_stmt (SIfE c1 c2 e c3 t c4 s') =
+  forallb nice (KIf :: cm c2 ++ LParen :: fl_cmp e ++ cm c3 ++ [RParen]) && lo_branch t && is_nil c4 && lo_branch s'.
+Proof. reflexivity. Qed.
+Lemma lo_whl c1 c2 e c3 t :
+  lo_stmt (SWhl c1 c2 e c3 t) = forallb nice (KWhile :: cm c2 ++ LParen :: fl_cmp e ++ cm c3 ++ [RParen]) && lo_branch t.
+Proof. reflexivity. Qed.
+
+Lemma is_nil_eq {A} (l : list A) : is_nil l = true -> l = [].
+Proof. destruct l; [reflexivity | discriminate]. Qed.
+
+(* split a boolean conjunction hypothesis, emptying the slots that must be empty *)
+Ltac lo_split H :=
+  repeat match type of H with
+         | _ && _ = true => let H' := fresh "L" in apply andb_true_iff in H; destruct H as [H H']
+         end;
+  repeat match goal with
+         | H0 : is_nil ?c = true |- _ => apply is_nil_eq in H0; subst c
+         end.
+
 (* a statement is printed as its woven text and one line feed *)
 Definition stmt_ok (s : astmt) : Prop :=
-  forall toks o, forallb nice (fl_stmt s) = true -> At toks o (fl_stmt s) ->
+  forall toks o, lo_stmt s = true -> forallb valid_kind (fl_stmt s) = true -> At toks o (fl_stmt s) ->
   exists t, fmt_stmt f (x_stmt o s) toks = FOk (t ++ [10%N]) /\ Wv (fl_stmt s) t.
 
 (* as a branch: a non-empty gap, the woven text, a non-empty gap (the line feed when the ending is the line feed) *)
 Definition branch_ok (s : astmt) : Prop :=
-  forall toks off ending, (ending = 10 \/ ending = 32)%N -> forallb nice (fl_stmt s) = true -> At toks off (fl_stmt s) ->
+  forall toks off ending, (ending = 10 \/ ending = 32)%N ->
+  lo_branch s = true -> forallb valid_kind (fl_stmt s) = true -> At toks off (fl_stmt s) ->
   exists g1 t g2, fmt_branch f (Some (x_stmt 0 s, off)) toks ending = FOk (gp g1 ++ t ++ gp g2) /\ Wv (fl_stmt s) t /\
                   forallb gapc g1 = true /\ g1 <> [] /\ forallb gapc g2 = true /\ g2 <> [] /\ (ending = 10%N -> g2 = [10%N]).
 
 Definition stmts_ok (b : astmts) : Prop :=
-  forall toks o, forallb nice (fl_stmts b) = true -> At toks o (fl_stmts b) ->
+  forall toks o, lo_stmts b = true -> forallb valid_kind (fl_stmts b) = true -> At toks o (fl_stmts b) ->
   match b with
   | SNil => fmt_stmts f (x_stmts o b) toks = FOk []
   | SCons _ _ => exists t, fmt_stmts f (x_stmts o b) toks = FOk (t ++ [10%N]) /\ Wv (fl_stmts b) t
@@ -274,12 +339,12 @@ Lemma ending_gap ending : (ending = 10 \/ ending = 32)%N -> forallb gapc [ending
 Proof. intros [-> | ->]; reflexivity. Qed.
 
 (* a statement that is not a block, printed as a branch: on its own line, one unit deeper *)
-Lemma branch_of_stmt s : is_block (x_stmt 0 s) = false -> stmt_ok s -> branch_ok s.
+Lemma branch_of_stmt s : is_block (x_stmt 0 s) = false -> lo_branch s = lo_stmt s -> stmt_ok s -> branch_ok s.
 Proof.
-  intros Hb IH toks off ending He Hn H. rewrite (fmt_branch_plain _ _ _ _ Hb).
+  intros Hb Hlb IH toks off ending He Hlo Hn H. rewrite Hlb in Hlo. rewrite (fmt_branch_plain _ _ _ _ Hb).
   destruct (with_from_At toks off 0 (fl_stmt s) (fun t' => do st <- fmt_stmt f (x_stmt 0 s) t'; FOk ([10%N] ++ indent st f)))
     as [E A0]; [at_solve|].
-  rewrite E. destruct (IH _ 0 Hn A0) as (t & Et & Wt). rewrite Et. cbn [fbind].
+  rewrite E. destruct (IH _ 0 Hlo Hn A0) as (t & Et & Wt). rewrite Et. cbn [fbind].
   exists (10%N :: unit), (ins_after unit t), [10%N].
   split; [unfold gp; cbn [app]; do 2 f_equal; apply (indent_Wv_nl f sym_ok _ _ Wt)|].
   split; [apply Wv_unit; [exact sym_ok | exact Wt]|].
@@ -287,45 +352,59 @@ Proof.
 Qed.
 
 Lemma ref_stmt toks off s :
-  stmt_ok s -> forallb nice (fl_stmt s) = true -> At toks off (fl_stmt s) ->
+  stmt_ok s -> lo_stmt s = true -> forallb valid_kind (fl_stmt s) = true -> At toks off (fl_stmt s) ->
   exists t, with_from off toks (fun t' => fmt_stmt f (x_stmt 0 s) t') = FOk (t ++ [10%N]) /\ Wv (fl_stmt s) t.
 Proof.
-  intros IH Hn H. destruct (with_from_At toks off 0 (fl_stmt s) (fun t' => fmt_stmt f (x_stmt 0 s) t')) as [E A0]; [at_solve|].
-  rewrite E. exact (IH _ 0 Hn A0).
+  intros IH Hlo Hn H. destruct (with_from_At toks off 0 (fl_stmt s) (fun t' => fmt_stmt f (x_stmt 0 s) t')) as [E A0]; [at_solve|].
+  rewrite E. exact (IH _ 0 Hlo Hn A0).
 Qed.
+
+Ltac kinds_norm :=
+  match goal with
+  | |- Wv ?ks ?t => let ks' := eval cbn [fl_stmt fl_sep cm map app] in ks in change (Wv ks' t)
+  end.
+
+(* [out = t ++ [10]] with the leading comment lines in front *)
+Ltac nl_lead c := nl_split; kinds_norm; apply (Wv_lead c); [assumption|].
 
 Lemma stmt_emp c : stmt_ok (SEmp c).
 Proof.
-  intros toks o Hn H. pose proof H as H0. pose proof Hn as Hn0. cbn [fl_stmt] in Hn, H. nice_split.
-  cbn [x_stmt]. rewrite fmt_stmt_empty, (finish_all toks o _ _ _ H0 Hn0 eq_refl).
-  exists (sh Semic). split; [reflexivity|]. cbn [fl_stmt cm map app]. wv2.
+  intros toks o Hlo Hv H. pose proof H as H0. cbn [fl_stmt] in Hv, H. valid_split.
+  cbn [x_stmt]. rewrite fmt_stmt_empty, (finish_all toks o _ _ c [Semic] _ H0 eq_refl eq_refl eq_refl).
+  nl_split. cbn [fl_stmt]. apply (Wv_lead c); [assumption | wv2].
 Qed.
 
 Lemma stmt_asg v c1 e c2 : stmt_ok (SAsg v c1 e c2).
 Proof.
-  intros toks o Hn H. pose proof H as H0. pose proof Hn as Hn0. cbn [fl_stmt] in Hn, H. nice_split.
+  intros toks o Hlo Hv H. pose proof H as H0. cbn [lo_stmt] in Hlo. pose proof (Hlo : id _) as Hlo0. nice_split. unfold id in Hlo0.
+  cbn [fl_stmt] in Hv, H. rewrite fl_var_lead, <- app_assoc in Hv. valid_split.
   cbn [x_stmt]. cbn [cm map app length] in *. rewrite fmt_stmt_assign, fmt_assign_body_eq. at_split.
   assert (IH1 := ref_expr_ok e toks (o + length (fl_var v) + 0 + 1) (cmp_prints e) ltac:(assumption) ltac:(at_solve)).
   use_prints IH1.
-  assert (IH2 := var_prints v toks o ltac:(assumption) ltac:(at_solve)). use_prints IH2.
-  rewrite (finish_all toks o _ _ _ H0 Hn0 eq_refl). nl_split. cbn [fl_stmt cm map app]. wv2.
+  assert (IH2 := var_lead_prints v toks o ltac:(assumption) ltac:(at_solve)). use_prints IH2.
+  rewrite (finish_all toks o _ _ (var_lead v) _ _ H0 ltac:(cbn [fl_stmt cm map app]; rewrite fl_var_lead, <- app_assoc; reflexivity) Hlo0 eq_refl).
+  nl_split. cbn [fl_stmt cm map app]. rewrite fl_var_lead, <- app_assoc. apply (Wv_lead (var_lead v)); [assumption|].
+  apply Wv_sp; [eassumption | wv2 | reflexivity | discriminate].
 Qed.
 
 Lemma stmt_cal c1 fn c2 a c3 c4 : stmt_ok (SCal c1 fn c2 a c3 c4).
 Proof.
-  intros toks o Hn H. pose proof H as H0. pose proof Hn as Hn0. cbn [fl_stmt] in Hn, H. nice_split.
+  intros toks o Hlo Hv H. pose proof H as H0. cbn [lo_stmt] in Hlo. pose proof (Hlo : id _) as Hlo0. nice_split. unfold id in Hlo0.
+  cbn [fl_stmt] in Hv, H. valid_split.
   cbn [x_stmt]. unfold x_ident. cbn [cm map app length] in *. rewrite fmt_stmt_call, fmt_call_body_eq. cbn [id_val]. at_split.
   destruct a as [[a l]|].
   - set (g := fun a0 : expr * nat => with_from (snd a0) toks (fun t' => fmt_expr (fst a0) t')).
-    assert (Hel : forall a0, elem_ok fl_cmp (x_cmp 0) toks g a0).
+    set (okp := fun a0 : acmp => forallb nice (fl_cmp a0) = true).
+    assert (Hel : forall a0, elem_ok fl_cmp (x_cmp 0) toks g okp a0).
     { intros a0 off Hn1 H1. unfold g. cbn [fst snd]. apply ref_expr_ok; [apply cmp_prints | exact Hn1 | exact H1]. }
-    destruct (sep_prints fl_cmp (x_cmp 0) toks g ends_cmp a l (Hel a)
-                ltac:(apply Forall_forall; intros; apply Hel) (o + 0 + 1 + 0 + 1) ltac:(assumption) ltac:(at_solve))
+    match goal with N : forallb nice (fl_sep fl_cmp (Some (a, l))) = true |- _ => cbn [fl_sep] in N; apply nice_app in N; destruct N as [Na Nl] end.
+    destruct (sep_prints fl_cmp (x_cmp 0) toks g okp ends_cmp a l (Hel a)
+                ltac:(apply Forall_forall; intros; apply Hel) (o + length c1 + 1 + 0 + 1) Na (nice_tail fl_cmp l Nl) ltac:(at_solve))
       as (t & ts & Ets & _ & Wts0).
     pose proof (Wts0 [32%N] eq_refl ltac:(discriminate)) as Wts.
-    rewrite Ets. cbn [fbind]. rewrite (finish_all toks o _ _ _ H0 Hn0 eq_refl). nl_split. cbn [fl_stmt cm map app]. wv2.
+    rewrite Ets. cbn [fbind]. rewrite (finish_all toks o _ _ c1 _ _ H0 eq_refl Hlo0 eq_refl). nl_lead c1. wv2.
   - cbn [x_sep fl_sep app] in *. rewrite fmap_nil. cbn [fbind join].
-    rewrite (finish_all toks o _ _ _ H0 Hn0 eq_refl). nl_split. cbn [fl_stmt fl_sep cm map app]. wv2.
+    rewrite (finish_all toks o _ _ c1 _ _ H0 eq_refl Hlo0 eq_refl). nl_lead c1. cbn [app]. wv2.
 Qed.
 
 (* rewrite [indent (t ++ [10]) f] for a woven t (the implicit element types of the two sides may differ: N / char) *)
@@ -336,38 +415,37 @@ Ltac rw_indent W :=
     match goal with |- context [indent ?s f] => change (indent s f) with l; rewrite Ei; clear Ei end
   end.
 
-Ltac kinds_norm :=
-  match goal with
-  | |- Wv ?ks ?t => let ks' := eval cbn [fl_stmt fl_sep cm map app] in ks in change (Wv ks' t)
-  end.
-
 Lemma blk_shape (a u m b : text) : a ++ gp [10%N] ++ (u ++ m ++ [10%N]) ++ b = a ++ gp (10%N :: u) ++ m ++ gp [10%N] ++ b.
 Proof. unfold gp. rewrite <- !app_assoc. reflexivity. Qed.
 
 Lemma stmt_blk c1 b c2 : stmts_ok b -> stmt_ok (SBlk c1 b c2) /\ branch_ok (SBlk c1 b c2).
 Proof.
   intros IHb. pose proof nl_unit_gap as Gu. split.
-  - intros toks o Hn H. pose proof H as H0. pose proof Hn as Hn0. cbn [fl_stmt] in Hn, H. nice_split.
+  - intros toks o Hlo Hv H. pose proof H as H0. cbn [lo_stmt] in Hlo. lo_split Hlo.
+    cbn [fl_stmt] in Hv, H. valid_split.
     cbn [x_stmt]. cbn [cm map app length] in *. at_split.
-    pose proof (IHb toks (o + 0 + 1) ltac:(assumption) ltac:(at_solve)) as IH1.
+    pose proof (IHb toks (o + length c1 + 1) Hlo ltac:(assumption) ltac:(at_solve)) as IH1.
     destruct b as [|s r]; cbn [x_stmts] in IH1 |- *.
-    + rewrite fmt_stmt_block_nil, (finish_leading toks o _ _ _ H0 Hn0 eq_refl). nl_split. kinds_norm. change (fl_stmts SNil) with (@nil kind). kinds_norm. wv2.
+    + rewrite fmt_stmt_block_nil, (finish_leading toks o _ _ c1 LCurly _ _ H0 eq_refl eq_refl eq_refl). nl_lead c1.
+      change (fl_stmts SNil) with (@nil kind). kinds_norm. wv2.
     + rewrite fmt_stmt_block_cons. destruct IH1 as (t & Et & Wt). rewrite Et. cbn [fbind].
-      rewrite (finish_leading toks o _ _ _ H0 Hn0 eq_refl). rw_indent Wt. rewrite blk_shape. nl_split. kinds_norm.
+      rewrite (finish_leading toks o _ _ c1 LCurly _ _ H0 eq_refl eq_refl eq_refl). rw_indent Wt. rewrite blk_shape. nl_lead c1.
       pose proof (Wv_unit f sym_ok _ _ Wt) as Wt'. wv2.
-  - intros toks off ending He Hn H. pose proof H as H0. pose proof (ending_gap ending He) as Ge.
-    cbn [fl_stmt] in Hn, H. nice_split. cbn [x_stmt]. cbn [cm map app length] in *.
+  - intros toks off ending He Hlo Hv H. pose proof H as H0. pose proof (ending_gap ending He) as Ge.
+    unfold lo_branch in Hlo. lo_split Hlo.
+    cbn [fl_stmt] in Hv, H. cbn [cm map app] in Hv, H. valid_split. cbn [x_stmt]. cbn [cm map app length] in *.
     destruct b as [|s r]; cbn [x_stmts].
     + rewrite fmt_branch_block_nil.
       match goal with |- context [with_from off toks ?K] =>
         destruct (with_from_At toks off 0 (fl_stmt (SBlk [] SNil [])) K) as [E _]; [at_solve|]; rewrite E end.
-      exists [32%N], (sh LCurly ++ sh RCurly), [10%N]. split; [reflexivity|]. split; [kinds_norm; change (fl_stmts SNil) with (@nil kind); kinds_norm; wv2|].
+      exists [32%N], (sh LCurly ++ sh RCurly), [10%N]. split; [reflexivity|].
+      split; [kinds_norm; change (fl_stmts SNil) with (@nil kind); kinds_norm; wv2|].
       split; [reflexivity|]. split; [discriminate|]. split; [reflexivity|]. split; [discriminate | reflexivity].
     + rewrite fmt_branch_block_cons.
       match goal with |- context [with_from off toks ?K] =>
         destruct (with_from_At toks off 0 (fl_stmt (SBlk [] (SCons s r) [])) K) as [E A0]; [at_solve|]; rewrite E end.
       cbn [fl_stmt cm map app] in A0. at_split.
-      pose proof (IHb (skipn off toks) (0 + 0 + 1) ltac:(assumption) ltac:(at_solve)) as IH1. cbn [x_stmts] in IH1.
+      pose proof (IHb (skipn off toks) (0 + 0 + 1) ltac:(assumption) ltac:(assumption) ltac:(at_solve)) as IH1. cbn [x_stmts] in IH1.
       destruct IH1 as (t & Et & Wt). rewrite Et. cbn [fbind]. rw_indent Wt.
       pose proof (Wv_unit f sym_ok _ _ Wt) as Wt'.
       exists [32%N], (sh LCurly ++ gp (10%N :: unit) ++ ins_after unit t ++ gp [10%N] ++ sh RCurly), [ending].
@@ -376,64 +454,75 @@ Proof.
       intros ->. reflexivity.
 Qed.
 
-Lemma plain_pair s : is_block (x_stmt 0 s) = false -> stmt_ok s -> stmt_ok s /\ branch_ok s.
-Proof. intros Hb S. split; [exact S | apply branch_of_stmt; assumption]. Qed.
+Lemma plain_pair s : is_block (x_stmt 0 s) = false -> lo_branch s = lo_stmt s -> stmt_ok s -> stmt_ok s /\ branch_ok s.
+Proof. intros Hb Hl S. split; [exact S | apply branch_of_stmt; assumption]. Qed.
 
 Lemma stmt_ift c1 c2 e c3 t : branch_ok t -> stmt_ok (SIfT c1 c2 e c3 t).
 Proof.
-  intros IHt toks o Hn H. pose proof H as H0. pose proof Hn as Hn0. cbn [fl_stmt] in Hn, H. nice_split.
+  intros IHt toks o Hlo Hv H. pose proof H as H0. rewrite lo_ift in Hlo. lo_split Hlo. nice_split.
+  cbn [fl_stmt] in Hv, H. cbn [cm map app] in Hv, H. valid_split.
   cbn [x_stmt]. cbv zeta. cbn [cm map app length] in *. rewrite fmt_stmt_if_none. at_split.
-  assert (IH1 := ref_expr_ok e toks (o + 0 + 1 + 0 + 1) (cmp_prints e) ltac:(assumption) ltac:(at_solve)). use_prints IH1.
-  destruct (IHt toks (o + 0 + 1 + 0 + 1 + length (fl_cmp e) + 0 + 1) 10%N (or_introl eq_refl) ltac:(assumption) ltac:(at_solve))
+  assert (IH1 := ref_expr_ok e toks (o + length c1 + 1 + 0 + 1) (cmp_prints e) ltac:(assumption) ltac:(at_solve)). use_prints IH1.
+  destruct (IHt toks (o + length c1 + 1 + 0 + 1 + length (fl_cmp e) + 0 + 1) 10%N (or_introl eq_refl)
+              ltac:(assumption) ltac:(assumption) ltac:(at_solve))
     as (g1 & tt & g2 & Eb & Wb & G1 & NE1 & G2 & NE2 & Hg2).
-  rewrite Eb. cbn [fbind]. rewrite (Hg2 eq_refl). rewrite (finish_leading toks o _ _ _ H0 Hn0 eq_refl).
-  change (gp [10%N]) with [10%N]. nl_split. kinds_norm. wv2.
+  rewrite Eb. cbn [fbind]. rewrite (Hg2 eq_refl). rewrite (finish_leading toks o _ _ c1 KIf _ _ H0 eq_refl eq_refl eq_refl).
+  change (gp [10%N]) with [10%N]. nl_lead c1. wv2.
 Qed.
 
 Lemma stmt_whl c1 c2 e c3 b : branch_ok b -> stmt_ok (SWhl c1 c2 e c3 b).
 Proof.
-  intros IHt toks o Hn H. pose proof H as H0. pose proof Hn as Hn0. cbn [fl_stmt] in Hn, H. nice_split.
+  intros IHt toks o Hlo Hv H. pose proof H as H0. rewrite lo_whl in Hlo. lo_split Hlo. nice_split.
+  cbn [fl_stmt] in Hv, H. cbn [cm map app] in Hv, H. valid_split.
   cbn [x_stmt]. cbv zeta. cbn [cm map app length] in *. rewrite fmt_stmt_while_eq. at_split.
-  assert (IH1 := ref_expr_ok e toks (o + 0 + 1 + 0 + 1) (cmp_prints e) ltac:(assumption) ltac:(at_solve)). use_prints IH1.
-  destruct (IHt toks (o + 0 + 1 + 0 + 1 + length (fl_cmp e) + 0 + 1) 10%N (or_introl eq_refl) ltac:(assumption) ltac:(at_solve))
+  assert (IH1 := ref_expr_ok e toks (o + length c1 + 1 + 0 + 1) (cmp_prints e) ltac:(assumption) ltac:(at_solve)). use_prints IH1.
+  destruct (IHt toks (o + length c1 + 1 + 0 + 1 + length (fl_cmp e) + 0 + 1) 10%N (or_introl eq_refl)
+              ltac:(assumption) ltac:(assumption) ltac:(at_solve))
     as (g1 & tt & g2 & Eb & Wb & G1 & NE1 & G2 & NE2 & Hg2).
-  rewrite Eb. cbn [fbind]. rewrite (Hg2 eq_refl). rewrite (finish_leading toks o _ _ _ H0 Hn0 eq_refl).
-  change (gp [10%N]) with [10%N]. nl_split. kinds_norm. wv2.
+  rewrite Eb. cbn [fbind]. rewrite (Hg2 eq_refl). rewrite (finish_leading toks o _ _ c1 KWhile _ _ H0 eq_refl eq_refl eq_refl).
+  change (gp [10%N]) with [10%N]. nl_lead c1. wv2.
 Qed.
+
+Lemma lo_branch_if s : is_if (x_stmt 0 s) = true -> lo_branch s = lo_stmt s.
+Proof. destruct s; try discriminate; reflexivity. Qed.
 
 Lemma stmt_ife c1 c2 e c3 t c4 s' : branch_ok t -> stmt_ok s' -> branch_ok s' -> stmt_ok (SIfE c1 c2 e c3 t c4 s').
 Proof.
-  intros IHt IHs IHsb toks o Hn H. pose proof H as H0. pose proof Hn as Hn0. cbn [fl_stmt] in Hn, H. nice_split.
+  intros IHt IHs IHsb toks o Hlo Hv H. pose proof H as H0. rewrite lo_ife in Hlo. lo_split Hlo. nice_split.
+  cbn [fl_stmt] in Hv, H. cbn [cm map app] in Hv, H. valid_split.
   cbn [x_stmt]. cbv zeta. cbn [cm map app length] in *. at_split.
   destruct (is_if (x_stmt 0 s')) eqn:Hif.
   - rewrite (fmt_stmt_if_elseif _ _ _ _ _ _ _ Hif).
-    assert (IH1 := ref_expr_ok e toks (o + 0 + 1 + 0 + 1) (cmp_prints e) ltac:(assumption) ltac:(at_solve)). use_prints IH1.
-    destruct (IHt toks (o + 0 + 1 + 0 + 1 + length (fl_cmp e) + 0 + 1) 32%N (or_intror eq_refl) ltac:(assumption) ltac:(at_solve))
+    assert (IH1 := ref_expr_ok e toks (o + length c1 + 1 + 0 + 1) (cmp_prints e) ltac:(assumption) ltac:(at_solve)). use_prints IH1.
+    destruct (IHt toks (o + length c1 + 1 + 0 + 1 + length (fl_cmp e) + 0 + 1) 32%N (or_intror eq_refl)
+                ltac:(assumption) ltac:(assumption) ltac:(at_solve))
       as (g1 & tt & g2 & Eb & Wb & G1 & NE1 & G2 & NE2 & _).
     rewrite Eb. cbn [fbind].
-    destruct (ref_stmt toks (o + 0 + 1 + 0 + 1 + length (fl_cmp e) + 0 + 1 + length (fl_stmt t) + 0 + 1) s' IHs
-                ltac:(assumption) ltac:(at_solve)) as (ts & Es & Ws).
-    rewrite Es. cbn [fbind]. rewrite (finish_leading toks o _ _ _ H0 Hn0 eq_refl). nl_split. kinds_norm. wv2.
+    match goal with L : lo_branch s' = true |- _ => rewrite (lo_branch_if s' Hif) in L end.
+    destruct (ref_stmt toks (o + length c1 + 1 + 0 + 1 + length (fl_cmp e) + 0 + 1 + length (fl_stmt t) + 0 + 1) s' IHs
+                ltac:(assumption) ltac:(assumption) ltac:(at_solve)) as (ts & Es & Ws).
+    rewrite Es. cbn [fbind]. rewrite (finish_leading toks o _ _ c1 KIf _ _ H0 eq_refl eq_refl eq_refl). nl_lead c1. wv2.
   - rewrite (fmt_stmt_if_else _ _ _ _ _ _ _ Hif).
-    assert (IH1 := ref_expr_ok e toks (o + 0 + 1 + 0 + 1) (cmp_prints e) ltac:(assumption) ltac:(at_solve)). use_prints IH1.
-    destruct (IHt toks (o + 0 + 1 + 0 + 1 + length (fl_cmp e) + 0 + 1) 32%N (or_intror eq_refl) ltac:(assumption) ltac:(at_solve))
+    assert (IH1 := ref_expr_ok e toks (o + length c1 + 1 + 0 + 1) (cmp_prints e) ltac:(assumption) ltac:(at_solve)). use_prints IH1.
+    destruct (IHt toks (o + length c1 + 1 + 0 + 1 + length (fl_cmp e) + 0 + 1) 32%N (or_intror eq_refl)
+                ltac:(assumption) ltac:(assumption) ltac:(at_solve))
       as (g1 & tt & g2 & Eb & Wb & G1 & NE1 & G2 & NE2 & _).
     rewrite Eb. cbn [fbind].
-    destruct (IHsb toks (o + 0 + 1 + 0 + 1 + length (fl_cmp e) + 0 + 1 + length (fl_stmt t) + 0 + 1) 10%N (or_introl eq_refl)
-                ltac:(assumption) ltac:(at_solve)) as (h1 & ts & h2 & Es & Ws & G3 & NE3 & G4 & NE4 & Hh2).
-    rewrite Es. cbn [fbind]. rewrite (Hh2 eq_refl). rewrite (finish_leading toks o _ _ _ H0 Hn0 eq_refl).
-    change (gp [10%N]) with [10%N]. nl_split. kinds_norm. wv2.
+    destruct (IHsb toks (o + length c1 + 1 + 0 + 1 + length (fl_cmp e) + 0 + 1 + length (fl_stmt t) + 0 + 1) 10%N (or_introl eq_refl)
+                ltac:(assumption) ltac:(assumption) ltac:(at_solve)) as (h1 & ts & h2 & Es & Ws & G3 & NE3 & G4 & NE4 & Hh2).
+    rewrite Es. cbn [fbind]. rewrite (Hh2 eq_refl). rewrite (finish_leading toks o _ _ c1 KIf _ _ H0 eq_refl eq_refl eq_refl).
+    change (gp [10%N]) with [10%N]. nl_lead c1. wv2.
 Qed.
 
 Lemma stmts_nil : stmts_ok SNil.
-Proof. intros toks o _ _. reflexivity. Qed.
+Proof. intros toks o _ _ _. reflexivity. Qed.
 
 Lemma stmts_cons s r : stmt_ok s -> stmts_ok r -> stmts_ok (SCons s r).
 Proof.
-  intros IHs IHr toks o Hn H. cbn [fl_stmts] in Hn, H. nice_split. at_split.
+  intros IHs IHr toks o Hlo Hv H. cbn [lo_stmts] in Hlo. lo_split Hlo. cbn [fl_stmts] in Hv, H. valid_split. at_split.
   cbn [x_stmts]. rewrite fmt_stmts_cons.
-  destruct (ref_stmt toks o s IHs ltac:(assumption) ltac:(at_solve)) as (t1 & E1 & W1). rewrite E1. cbn [fbind].
-  pose proof (IHr toks (o + length (fl_stmt s)) ltac:(assumption) ltac:(at_solve)) as IH2.
+  destruct (ref_stmt toks o s IHs ltac:(assumption) ltac:(assumption) ltac:(at_solve)) as (t1 & E1 & W1). rewrite E1. cbn [fbind].
+  pose proof (IHr toks (o + length (fl_stmt s)) ltac:(assumption) ltac:(assumption) ltac:(at_solve)) as IH2.
   destruct r as [|s2 r2].
   - rewrite IH2. cbn [fbind]. exists t1. split; [rewrite app_nil_r; reflexivity|]. cbn [fl_stmts]. rewrite app_nil_r. exact W1.
   - destruct IH2 as (t2 & E2 & W2). rewrite E2. cbn [fbind]. exists (t1 ++ gp [10%N] ++ t2).
@@ -443,12 +532,12 @@ Qed.
 Theorem stmt_prints : (forall s, stmt_ok s /\ branch_ok s) /\ (forall b, stmts_ok b).
 Proof.
   apply GrammarStmt.astmt_mutind.
-  - intros c. apply plain_pair; [reflexivity | apply stmt_emp].
-  - intros. apply plain_pair; [reflexivity | apply stmt_asg].
-  - intros. apply plain_pair; [reflexivity | apply stmt_cal].
-  - intros c1 c2 e c3 t [_ IHt]. apply plain_pair; [reflexivity | apply stmt_ift; exact IHt].
-  - intros c1 c2 e c3 t [_ IHt] c4 s' [IHs IHsb]. apply plain_pair; [reflexivity | apply stmt_ife; assumption].
-  - intros c1 c2 e c3 b [_ IHb]. apply plain_pair; [reflexivity | apply stmt_whl; exact IHb].
+  - intros c. apply plain_pair; [reflexivity | reflexivity | apply stmt_emp].
+  - intros. apply plain_pair; [reflexivity | reflexivity | apply stmt_asg].
+  - intros. apply plain_pair; [reflexivity | reflexivity | apply stmt_cal].
+  - intros c1 c2 e c3 t [_ IHt]. apply plain_pair; [reflexivity | reflexivity | apply stmt_ift; exact IHt].
+  - intros c1 c2 e c3 t [_ IHt] c4 s' [IHs IHsb]. apply plain_pair; [reflexivity | reflexivity | apply stmt_ife; assumption].
+  - intros c1 c2 e c3 b [_ IHb]. apply plain_pair; [reflexivity | reflexivity | apply stmt_whl; exact IHb].
   - intros c1 b IHb c2. apply stmt_blk. exact IHb.
   - apply stmts_nil.
   - intros s [IHs _] r IHr. apply stmts_cons; assumption.
@@ -458,3 +547,43 @@ Lemma stmts_prints b : stmts_ok b.
 Proof. apply stmt_prints. Qed.
 
 End Stmt.
+
+(* ---- a comment-free statement has its comments in leading position only ---- *)
+Lemma nice_var_code v : forallb nice (fl_var v) = true -> forallb nice (var_code v) = true /\ var_lead v = [].
+Proof. rewrite fl_var_lead. intros H. apply nice_cm in H. tauto. Qed.
+
+Lemma nice_lo : (forall s, forallb nice (fl_stmt s) = true -> lo_stmt s = true /\ lo_branch s = true) /\
+                (forall b, forallb nice (fl_stmts b) = true -> lo_stmts b = true).
+Proof.
+  assert (nice_refold : forall a b, forallb nice a = true -> forallb nice b = true -> forallb nice (a ++ b) = true)
+    by (intros a b Ha Hb; rewrite forallb_app, Ha, Hb; reflexivity).
+  apply GrammarStmt.astmt_mutind.
+  - intros c _. split; reflexivity.
+  - intros v c1 e c2 H. cbn [fl_stmt] in H. apply nice_app in H. destruct H as [Hv H].
+    destruct (nice_var_code v Hv) as [Hc _]. assert (G : lo_stmt (SAsg v c1 e c2) = true) by (cbn [lo_stmt]; apply nice_refold; assumption).
+    split; exact G.
+  - intros c1 fn c2 a c3 c4 H. cbn [fl_stmt] in H. apply nice_cm in H. destruct H as [_ H]. split; exact H.
+  - intros c1 c2 e c3 t IHt H. cbn [fl_stmt] in H. nice_split.
+    destruct (IHt ltac:(assumption)) as [_ Lt].
+    assert (G : lo_stmt (SIfT [] [] e [] t) = true).
+    { rewrite lo_ift, Lt, andb_true_r. cbn [cm map app forallb]. apply andb_true_iff. split; [reflexivity|].
+      apply andb_true_iff. split; [reflexivity|]. apply nice_refold; [assumption | reflexivity]. }
+    split; exact G.
+  - intros c1 c2 e c3 t IHt c4 s' IHs H. cbn [fl_stmt] in H. nice_split.
+    destruct (IHt ltac:(assumption)) as [_ Lt]. destruct (IHs ltac:(assumption)) as [_ Ls].
+    assert (G : lo_stmt (SIfE [] [] e [] t [] s') = true).
+    { rewrite lo_ife, Lt, Ls, !andb_true_r. cbn [cm map app forallb]. apply andb_true_iff. split; [reflexivity|].
+      apply andb_true_iff. split; [reflexivity|]. apply nice_refold; [assumption | reflexivity]. }
+    split; exact G.
+  - intros c1 c2 e c3 b IHb H. cbn [fl_stmt] in H. nice_split.
+    destruct (IHb ltac:(assumption)) as [_ Lt].
+    assert (G : lo_stmt (SWhl [] [] e [] b) = true).
+    { rewrite lo_whl, Lt, andb_true_r. cbn [cm map app forallb]. apply andb_true_iff. split; [reflexivity|].
+      apply andb_true_iff. split; [reflexivity|]. apply nice_refold; [assumption | reflexivity]. }
+    split; exact G.
+  - intros c1 b IHb c2 H. cbn [fl_stmt] in H. nice_split. pose proof (IHb ltac:(assumption)) as Lb.
+    split; [cbn [lo_stmt]; rewrite Lb; reflexivity | unfold lo_branch; cbn [is_nil andb]; exact Lb].
+  - intros _. reflexivity.
+  - intros s IHs r IHr H. cbn [fl_stmts] in H. nice_split. cbn [lo_stmts].
+    destruct (IHs ltac:(assumption)) as [Ls _]. rewrite Ls, (IHr ltac:(assumption)). reflexivity.
+Qed.
